@@ -165,3 +165,55 @@ pub fn guarded<R>(f: impl FnOnce() -> R) -> Result<R, PanicInfo> {
         Err(_) => Err(set_last(None).unwrap_or_default()),
     }
 }
+
+// ---------------------------------------------------------------------------------------------
+// divergence detector: a library call that burns CPU without ever returning
+// ---------------------------------------------------------------------------------------------
+
+pub static BEAT: std::sync::atomic::AtomicU64 = std::sync::atomic::AtomicU64::new(0);
+static PHASE: std::sync::Mutex<String> = std::sync::Mutex::new(String::new());
+
+/// mark progress; `what` describes the call that is about to run
+pub fn beat(what: &str) {
+    BEAT.fetch_add(1, std::sync::atomic::Ordering::Relaxed);
+    if let Ok(mut g) = PHASE.try_lock() {
+        g.clear();
+        g.push_str(what);
+    }
+}
+
+fn cpu_ticks() -> Option<u64> {
+    let s = std::fs::read_to_string("/proc/self/stat").ok()?;
+    let rest = s.rsplit(')').next()?;
+    let f: Vec<&str> = rest.split_whitespace().collect();
+    // after the command name: state is field 0, utime field 11, stime field 12
+    Some(f.get(11)?.parse::<u64>().ok()? + f.get(12)?.parse::<u64>().ok()?)
+}
+
+/// Start a thread that ends the process with exit code 3 and a `PTV-HANG` line when the monitored
+/// call has consumed `cpu_secs` seconds of *CPU time* (not wall-clock) without any heartbeat.
+pub fn start_hang_detector(cpu_secs: u64, args_json: serde_json::Value) {
+    if cfg!(miri) || cpu_ticks().is_none() {
+        return;
+    }
+    std::thread::spawn(move || {
+        let hz = 100u64; // USER_HZ
+        let mut last_beat = BEAT.load(std::sync::atomic::Ordering::Relaxed);
+        let mut cpu_at_beat = cpu_ticks().unwrap_or(0);
+        loop {
+            std::thread::sleep(std::time::Duration::from_millis(500));
+            let b = BEAT.load(std::sync::atomic::Ordering::Relaxed);
+            let c = cpu_ticks().unwrap_or(cpu_at_beat);
+            if b != last_beat {
+                last_beat = b;
+                cpu_at_beat = c;
+                continue;
+            }
+            if c.saturating_sub(cpu_at_beat) >= cpu_secs * hz {
+                let phase = PHASE.lock().map(|g| g.clone()).unwrap_or_default();
+                println!("PTV-HANG {}", serde_json::json!({"phase": phase, "cpu_seconds_without_progress": (c - cpu_at_beat) / hz, "args": args_json}));
+                std::process::exit(3);
+            }
+        }
+    });
+}
